@@ -388,4 +388,18 @@ def run(ctx: Ctx, tier: str) -> Result:
     borrow(ctx, res, tier, "c13", ("C13.HANDLE",), "C11.EACH", "every registration is a tracepoint of its own (a second registration is never answered with the first one's)")
     borrow(ctx, res, tier, "c13", ("C13.ADD",), "C11.PUBLISH", "what is published is the service's tracepoints plus the registered ones, each once")
     borrow(ctx, res, tier, "c04", ("C04.STATE",), "C11.BUDGET", "the tracepoint's own fire count / period are advanced by every started collection")
+    borrow(ctx, res, tier, "c15", ("C15.ONCE",), "C11.DEFER", "the deferred part of a span / capture tracepoint (closing the span, sending the snapshot with the result) is "
+           "carried out for the invocation that opened it: the action the arguments ask for is completed, not only begun")
+    borrow(ctx, res, tier, "c12", ("C12.ORDER", "C12.APPLY"), "C11.INSTALL", "the tracepoints of the latest response are the ones installed: a publication never carries an older "
+           "configuration than the one before it")
+    # what a tracepoint contributes to a shared location really lands in the trigger: an in-place change made to the list a
+    # property built for its caller is lost with that list
+    from .common import lost_updates
+    scope_ = [f_ for f_ in p.functions.values() if f_.module.name.startswith(("deep.api.tracepoint", "deep.config", "deep.grpc"))]
+    lu_ = lost_updates(ctx, scope_)
+    for f_, c_, g_ in lu_[:3]:
+        res.fail(Finding("C11.KEEP", f_.qname, c_, f_.loc(c_), "`%s` changes the value handed out by the property %s, which is a new list / dict built at each access: the change is "
+                         "thrown away with it (actions merged into a trigger of the same location are lost)" % (norm(c_)[:60], g_.qname.rsplit(".", 2)[-2] + "." + g_.name)))
+    if not lu_:
+        res.ok("C11.KEEP", {"no in-place change is made to a copy handed out by a property": len(scope_)})
     return res
